@@ -1,115 +1,8 @@
-(* C13: renderings for the parts of the dialect whose round trip is stated but not
-   yet proved (rate information of reactions, concentrations of kernel complexes,
-   tabs in layouts).  Definitions only; the statements live in props/C13.v as
-   `Definition ..._full : Prop`. *)
+(* C13: definitions used only by the full statements that are not yet proved
+   (props/C13.v, `Definition ..._full : Prop`). *)
 From Coq Require Import List NArith Bool Arith.
-From DSD Require Import Base.Str Base.Val Model.Peg Model.DispatchPeg Proofs.PegStd Proofs.PegDoc Proofs.C13Doc
-  Proofs.PilLex Proofs.C13Rx Proofs.C13Kc.
-From DSDGen Require Import PilGrammar.
+From DSD Require Import Base.Str Model.Peg.
 Import ListNotations.
-
-(* numbers: DIGITS [. DIGITS] [e [+|-] DIGITS] *)
-Record gnum := mkGnum { g_int : pstr; g_frac : option pstr; g_exp : option (option chr * pstr) }.
-Definition digits_ok (s : pstr) : Prop := s <> [] /\ all_in digit s.
-Definition gnum_ok (g : gnum) : Prop :=
-  digits_ok (g_int g) /\
-  match g_frac g with Some f => digits_ok f | None => True end /\
-  match g_exp g with
-  | Some (sg, e) => digits_ok e /\ match sg with Some c => c = 43%N \/ c = 45%N | None => True end
-  | None => True
-  end.
-Definition gnum_text (g : gnum) : pstr :=
-  g_int g ++ match g_frac g with Some f => 46%N :: f | None => [] end ++
-  match g_exp g with
-  | Some (sg, e) => 101%N :: match sg with Some c => [c] | None => [] end ++ e
-  | None => []
-  end.
-
-(* concentration units, time units *)
-Inductive cunit := UM | UmM | UuM | UnM | UpM.
-Definition cunit_text (u : cunit) : pstr :=
-  match u with UM => [77] | UmM => [109; 77] | UuM => [117; 77] | UnM => [110; 77] | UpM => [112; 77] end%N.
-Inductive tunit := Us | Um | Uh.
-Definition tunit_text (u : tunit) : pstr := match u with Us => [115] | Um => [109] | Uh => [104] end%N.
-Definition runit_text (cs : list cunit) (t : tunit) : pstr :=
-  flat_map (fun c => 47%N :: cunit_text c) cs ++ 47%N :: tunit_text t.
-
-(* rate information: [ NAME (=|:) RATE [+/- (RATE | inf)] /UNIT.../TIME ] *)
-Record infobox := mkInfobox {
-  ib_name : option (chr * pstr * pstr * chr * pstr);      (* name, blanks, sign, blanks *)
-  ib_rate : gnum; ib_err : option (pstr * pstr * option gnum);  (* blanks, blanks, a number or `inf` *)
-  ib_cunits : list cunit; ib_tunit : tunit;
-  ib_b1 : pstr; ib_b2 : pstr; ib_b3 : pstr; ib_b4 : pstr }.
-Definition INF : pstr := [105; 110; 102]%N.
-Definition err_text (e : option gnum) : pstr := match e with Some g => gnum_text g | None => INF end.
-Definition infobox_text (i : infobox) : pstr :=
-  ib_b1 i ++ 91%N :: ib_b2 i ++
-  match ib_name i with Some (n0, ns, b, sg, b') => n0 :: ns ++ b ++ sg :: b' | None => [] end ++
-  gnum_text (ib_rate i) ++
-  match ib_err i with Some (b, b', e) => b ++ [43; 47; 45]%N ++ b' ++ err_text e | None => [] end ++
-  ib_b3 i ++ runit_text (ib_cunits i) (ib_tunit i) ++ ib_b4 i ++ [93%N].
-Definition infobox_ok (i : infobox) : Prop :=
-  blanks WS (ib_b1 i) /\ blanks WS (ib_b2 i) /\ blanks WS (ib_b3 i) /\ blanks WS (ib_b4 i) /\
-  gnum_ok (ib_rate i) /\
-  match ib_name i with
-  | Some (n0, ns, b, sg, b') => memc n0 idch = true /\ all_in idch ns /\ blanks WS b /\ blanks WS b' /\ (sg = 61%N \/ sg = 58%N)
-  | None => True
-  end /\
-  match ib_err i with
-  | Some (b, b', e) => blanks WS b /\ blanks WS b' /\ match e with Some g => gnum_ok g | None => True end
-  | None => True
-  end.
-Definition infobox_toks (i : infobox) : tok :=
-  TList [TList match ib_name i with Some (n0, ns, _, _, _) => [TStr (n0 :: ns)] | None => [] end;
-         TList (TStr (gnum_text (ib_rate i)) :: match ib_err i with Some (_, _, e) => [TStr (err_text e)] | None => [] end);
-         TList [TStr (runit_text (ib_cunits i) (ib_tunit i))]].
-
-(* a reaction with rate information: the infobox goes between the keyword and the reactants *)
-Definition rxi_render (s : rx_stmt) (y : rx_layout) (i : infobox) : pstr :=
-  rxkw_text (rx_kw s) ++ infobox_text i ++ rx_tail_text s y [].
-Definition rxi_tree (s : rx_stmt) (i : infobox) : tok :=
-  TList [TStr tag_rx; infobox_toks i; TList (names_toks (rx_r0 s) (rx_rs0 s) (rx_reactants s));
-         TList (names_toks (rx_p0 s) (rx_ps0 s) (rx_products s))].
-
-(* a kernel complex with concentration: ... @ (initial|i|constant|c) NUMBER UNIT *)
-Inductive conckw := CInitial | CI | CConstant | CC.
-Definition conckw_text (k : conckw) : pstr :=
-  match k with
-  | CInitial => [105; 110; 105; 116; 105; 97; 108] | CI => [105]
-  | CConstant => [99; 111; 110; 115; 116; 97; 110; 116] | CC => [99]
-  end%N.
-Record conc := mkConc { c_kw : conckw; c_num : gnum; c_unit : cunit; c_b1 : pstr; c_b2 : pstr; c_b3 : pstr; c_b4 : pstr }.
-Definition conc_text (c : conc) : pstr :=
-  c_b1 c ++ 64%N :: c_b2 c ++ conckw_text (c_kw c) ++ c_b3 c ++ gnum_text (c_num c) ++ c_b4 c ++ cunit_text (c_unit c).
-Definition conc_ok (c : conc) : Prop :=
-  blanks WS (c_b1 c) /\ blanks WS (c_b2 c) /\ blanks WS (c_b3 c) /\ blanks WS (c_b4 c) /\ gnum_ok (c_num c).
-Definition conc_toks (c : conc) : tok :=
-  TList [TStr (conckw_text (c_kw c)); TStr (gnum_text (c_num c)); TStr (cunit_text (c_unit c))].
-Definition kcc_render (s : kc_stmt) (c : conc) : pstr :=
-  (kc_n0 s :: kc_ns s) ++ kc_b2 s ++ 61%N :: items_text (kc_first s :: kc_more s) (conc_text c).
-Definition kcc_tree (s : kc_stmt) (c : conc) : tok :=
-  TList [TStr tag_kc; TStr (kc_n0 s :: kc_ns s); TList (items_toks (kc_first s :: kc_more s)); conc_toks c].
 
 (* blank runs that may contain tabs: parse_string expands them before parsing *)
 Definition blanks_tab (b : pstr) : Prop := forallb (fun c => N.eqb c 32 || N.eqb c 9) b = true.
-
-(* sanity: the renderings above are what the model accepts (non-vacuity of the _full statements) *)
-Example rxi_example :
-  let s := mkRx KwReaction 65%N [] [mkMember [32%N] [32%N] 66%N []] 65%N [95; 66]%N [] in
-  let y := mkRxLayout [32%N] [32%N] [32%N] in
-  let i := mkInfobox (Some (107%N, [49%N], [32%N], 61%N, [32; 32]%N))
-             (mkGnum [49%N] (Some [52; 49]%N) (Some (Some 43%N, [48; 55]%N)))
-             (Some ([32%N], [32%N], None)) [UM] Us [32%N] [] [32%N] [] in
-  infobox_ok i /\ parse_pil (rxi_render s y i ++ [NL]) = vals [rxi_tree s i].
-Proof.
-  cbn zeta. split; [|vm_compute; reflexivity].
-  unfold infobox_ok, gnum_ok, digits_ok. cbn. repeat split; try reflexivity; try discriminate; auto.
-Qed.
-Example kcc_example :
-  let s := mkKc 67%N [] [32%N] (ISense [32%N] 97%N [] false true) [] in
-  let c := mkConc CI (mkGnum [49%N] None (Some (Some 45%N, [55%N]))) UnM [32%N] [] [32%N] [32%N] in
-  conc_ok c /\ parse_pil (kcc_render s c ++ [NL]) = vals [kcc_tree s c].
-Proof.
-  cbn zeta. split; [|vm_compute; reflexivity].
-  unfold conc_ok, gnum_ok, digits_ok. cbn. repeat split; try reflexivity; try discriminate; auto.
-Qed.
